@@ -97,31 +97,31 @@ theorem C04_toughness (ast : Attr.St Rat) (p : AttackP Rat) (tgt : Int) (hp : Ra
             else u.stance) := by
   have h1 : ∀ id', Attr.find? (attr1 ast p tgt hp) id' =
       if id' = tgt then (Attr.find? ast tgt).map
-        (fun u => Attr.hpUnit u p.src u.hpRatio (Attr.clamp01 ((u.currentHP + -hp) / u.maxHP)) true)
+        (fun u => Attr.modHPUnit u p.src (-hp) true)
       else Attr.find? ast id' := fun id' => Attr.find?_modHP ast tgt p.src (-hp) true id'
   have hpct : Attr.stancePctOf (attr1 ast p tgt hp) p.src = Attr.stancePctOf ast p.src := by
     unfold Attr.stancePctOf
     rw [h1]
     by_cases e : p.src = tgt
     · simp only [e, if_true, hu, Option.map_some]
-      exact (Attr.hpUnit_static u _ _ _ _).2.2.1
+      exact (Attr.modHPUnit_static u _ _ _).2.2.1
     · simp only [e, if_false]
   unfold Attr.stanceOf attr3
   rw [Attr.find?_modEnergy]
   have h2 : Attr.find? (attr2 ast p tgt hp weak) tgt =
       some (if weak then
           (if Num.eqb u.stance (Attr.clampTo (u.stance + (-p.stanceDamage * hitRatioOf p) * (1 + Attr.stancePctOf ast p.src)) u.maxStance)
-           then Attr.hpUnit u p.src u.hpRatio (Attr.clamp01 ((u.currentHP + -hp) / u.maxHP)) true
-           else { Attr.hpUnit u p.src u.hpRatio (Attr.clamp01 ((u.currentHP + -hp) / u.maxHP)) true with
+           then Attr.modHPUnit u p.src (-hp) true
+           else { Attr.modHPUnit u p.src (-hp) true with
                     stance := Attr.clampTo (u.stance + (-p.stanceDamage * hitRatioOf p) * (1 + Attr.stancePctOf ast p.src)) u.maxStance })
-        else Attr.hpUnit u p.src u.hpRatio (Attr.clamp01 ((u.currentHP + -hp) / u.maxHP)) true) := by
+        else Attr.modHPUnit u p.src (-hp) true) := by
     unfold attr2
     cases weak with
     | false => simp only [Bool.false_eq_true, if_false, h1, if_true, hu, Option.map_some]
     | true =>
       simp only [if_true]
       rw [Attr.find?_modStance, hpct]
-      simp only [if_true, h1, hu, Option.map_some, Attr.hpUnit_stance, (Attr.hpUnit_static u _ _ _ _).1]
+      simp only [if_true, h1, hu, Option.map_some, Attr.modHPUnit_stance, (Attr.modHPUnit_static u _ _ _).1]
   have hst : ∀ w : Attr.Unit Rat, Attr.find? (attr2 ast p tgt hp weak) tgt = some w →
       (Option.map (fun x => x.stance)
         (if tgt = receiver isChar p tgt then
@@ -134,11 +134,11 @@ theorem C04_toughness (ast : Attr.St Rat) (p : AttackP Rat) (tgt : Int) (hp : Ra
     · simp [e, hw]
   rw [hst _ h2]
   cases weak with
-  | false => simp [Attr.hpUnit_stance]
+  | false => simp [Attr.modHPUnit_stance]
   | true =>
     simp only [if_true]
     split_ifs with h
-    · simp only [Attr.hpUnit_stance]
+    · simp only [Attr.modHPUnit_stance]
       have h' : u.stance = Attr.clampTo (u.stance + (-p.stanceDamage * hitRatioOf p) * (1 + Attr.stancePctOf ast p.src)) u.maxStance := by
         simpa using h
       exact congrArg some h'
@@ -158,8 +158,8 @@ theorem attr2_energy_frame (ast : Attr.St Rat) (p : AttackP Rat) (tgt : Int) (hp
     · subst e
       simp only [if_true, Option.map_map]
       congr 1; funext u
-      simp only [Function.comp, Attr.hpUnit_energy]
-      obtain ⟨_, h2, _, h4, h5⟩ := Attr.hpUnit_static u p.src u.hpRatio (Attr.clamp01 ((u.currentHP + -hp) / u.maxHP)) true
+      simp only [Function.comp, Attr.modHPUnit_energy]
+      obtain ⟨_, h2, _, h4, h5⟩ := Attr.modHPUnit_static u p.src (-hp) true
       rw [h2, h4, h5]
     · simp only [e, if_false]
   unfold attr2
